@@ -7,10 +7,13 @@
    object reachable from refs/notes/ai; (b) in Notes mode every token that the entropy classifier flags is
    masked before it is written.
 
-   (a) holds of the model for every writer of the GENERATED inventory that applies the storage-mode match or
-   builds its log from existing notes only (C08_no_text, C08_no_text_seq, C08_inventory_ok); it is FALSE for
-   `rewrite_authorship_after_commit_amend`, which the inventory lists as unfiltered and fed from the working
-   log (C08_amend_refuted: such a writer breaks the invariant in every mode) - known class C08-K1.
+   (a) holds of the model for every writer of the GENERATED inventory: each one either applies a storage-mode
+   match that leaves no messages in Local and Default mode (post_commit, rewrite_authorship_after_commit_amend)
+   or builds its log from existing notes only (C08_no_text, C08_no_text_seq, C08_inventory_ok - no exception
+   list).  A writer without a storage-mode match that is fed from the working log would break the invariant in
+   every mode (C08_unfiltered_writer_refuted): that was `rewrite_authorship_after_commit_amend` before its
+   repair (former class C08-K1); the inventory contains no such writer any more, and a new one makes
+   C08_inventory_ok fail to check.
    (b) holds for the text of User/Assistant/Thinking/Plan messages and tokens of 15..90 secret characters
    (C08_redact_complete, C08_mask_hides, C08_prompts_redacted, C08_notes_mode_masks); it is FALSE for
    ToolUse.input (C08_tooluse_refuted, class C08-K2) and a run longer than MAX is never examined whatever the
@@ -128,28 +131,32 @@ Theorem C08_no_text_seq :
 Proof. exact no_text_run. Qed.
 Print Assumptions C08_no_text_seq.
 
-(* computed over the GENERATED inventory: every writer is filtered or notes-sourced, except the known one *)
+(* computed over the GENERATED inventory: EVERY writer is filtered or notes-sourced (no exception list) *)
 Theorem C08_inventory_ok : inventory_ok note_writers = true.
 Proof. exact inventory_ok_now. Qed.
 Print Assumptions C08_inventory_ok.
 
-Theorem C08_inventory_safe :
-  forall w, In w note_writers -> known_unsafe w = false -> safe_writer w = true.
+Theorem C08_inventory_safe : forall w, In w note_writers -> safe_writer w = true.
 Proof. exact inventory_safe. Qed.
 Print Assumptions C08_inventory_safe.
 
-(* the model of rewrite_authorship_after_commit_amend (unfiltered, fed from the working log) breaks the
-   invariant from the empty notes ref, in every mode *)
-Theorem C08_amend_refuted :
-  forall (isr : list N -> bool) w, w_filtered w = false -> source_is_notes w = false ->
+(* ... and every writer that may carry working-log records redacts them in Notes mode *)
+Theorem C08_inventory_notes_ok : inventory_notes_ok note_writers = true.
+Proof. exact inventory_notes_ok_now. Qed.
+Print Assumptions C08_inventory_notes_ok.
+
+(* a writer WITHOUT a storage-mode match that is fed from the working log (what the amend writer was before
+   its repair) breaks the invariant from the empty notes ref, in every mode *)
+Theorem C08_unfiltered_writer_refuted :
+  forall (isr : list N -> bool) w, w_arms w = None -> source_is_notes w = false ->
     Inv_clean [] /\ forall m e, ~ Inv_clean (write isr w m e [] wit_src).
 Proof. exact unfiltered_worklog_refuted. Qed.
-Print Assumptions C08_amend_refuted.
+Print Assumptions C08_unfiltered_writer_refuted.
 
-(* Notes mode: a filtered writer writes exactly the redacted log *)
+(* Notes mode: a writer whose Notes arm redacts writes exactly the redacted log *)
 Theorem C08_notes_mode_masks :
   forall (isr : list N -> bool) w e ns src,
-    w_filtered w = true -> log_text_ok (built_log w ns src) ->
+    w_redacts_in_notes w = true -> log_text_ok (built_log w ns src) ->
     write isr w MNotes e ns src
     = map (fun p => set_messages p (map (redact_msg_spec isr) (p_messages p))) (built_log w ns src) :: ns.
 Proof. exact notes_mode_masks. Qed.
@@ -189,7 +196,7 @@ Proof. exact user_msg_masked. Qed.
 
 (* the inventory really contains a filtered working-log writer and notes-sourced writers *)
 Example C08_nonvacuous_inventory :
-  existsb (fun w => w_filtered w && w_src_worklog w) note_writers = true /\
+  existsb (fun w => w_filtered w && w_redacts_in_notes w && w_src_worklog w) note_writers = true /\
   existsb source_is_notes note_writers = true.
 Proof. split; reflexivity. Qed.
 
